@@ -144,6 +144,10 @@ def grpcFits (tr : Transport) (g : Option Nat) : Bool :=
   | .grpc, some g => g != 0
   | _, _ => false
 
+/-- the `WWW-Authenticate` values of an answer -/
+def wwwValues (r : Resp) : List String :=
+  r.headers.filterMap fun kv => if kv.1 == "Www-Authenticate" then some kv.2 else none
+
 /-- judgement of an answer `o` to the failure `f` -/
 def ok (tr : Transport) (cfg : Cfg) (acc : Accept) (f : Failure) (o : Out) : Bool :=
   match o with
@@ -155,7 +159,9 @@ def ok (tr : Transport) (cfg : Cfg) (acc : Accept) (f : Failure) (o : Out) : Boo
     grpcFits tr r.grpc &&
     bodyOk cfg acc r &&
     r.headers.all (fun kv => errorHeaderNames.contains kv.1) &&
-    r.headers.all (fun kv => kv.1 != "Www-Authenticate" || f.challenge.contains kv.2)
+    r.headers.all (fun kv => kv.1 != "Www-Authenticate" || f.challenge.contains kv.2) &&
+    -- every challenge exactly as often as it was collected for this request (none repeated, none carried over)
+    (wwwValues r).all (fun v => (wwwValues r).count v == f.challenge.count v)
 
 end Spec
 
